@@ -149,6 +149,16 @@ def run(ck, fx, cg, tier):
             else:
                 ck.ob("R11.profile", key, True, loc(n), "exempt (%s): %s" % (cls, why), nontrivial=False)
                 exempt.append({"fn": hb["path"], "at": loc(n), "op": op, "type": prim, "class": cls, "why": why})
+    # `{:p}` anywhere in the crate: a Display / Debug impl is reached through the formatting machinery, not through a call
+    # the graph shows, so the address census for format strings covers every body, reachable or not
+    for hb in fx.hir:
+        if hb.get("did") in reach or hb["from_expansion"]:
+            continue
+        for n, ps in walk_body(hb):
+            if n.get("k") == "FormatArgs":
+                for p in n["pieces"]:
+                    if p.get("tr") == "Pointer":
+                        ck.ob("R11.env", "%s|{:p}" % hb["path"], False, loc(n), "pointer value formatted ({:p}) — a native address reaches text the program can print")
     # command-line options that silently fall back to environment variables (clap `env = ".."`): no call to std::env
     # appears in the source, the read happens inside the derive
     n_clap = 0
